@@ -35,8 +35,8 @@ CLAIMED = {
     ),
     "C06": dict(
         category="exploration",
-        text="Non-empty subsets of 12 KES-certified fixture signers with generated stakes (incl. equal stakes) and parameters; three independent permutations of the registration order. The aggregate key is computed by the mithril-stm library under two arrival orders, by SignerBuilder (the path signer and aggregator nodes use) on the JSON round-tripped signer list, and by the client's MessageBuilder on the JSON round-tripped stake-distribution message; the key itself goes through json-hex and bytes round trips; one party's node-path signer signs and its slot and signature are checked against the library path; total stake = sum; removing a party, stake +-1 or swapping two unequal stakes must change the key. A differential between independent computation paths under generated orders is exactly what the statement quantifies over.",
-        note="Key material: the repository's deterministic fixture builder (12 certified signers); shared-prefix BLS keys cannot be manufactured. The aggregator/signer services that wrap SignerBuilder are exercised end-to-end by C14/C20, not here.",
+        text="Non-empty subsets of 12 KES-certified fixture signers with generated stakes (incl. equal stakes) and parameters; three independent permutations of the registration order. The aggregate key is computed by the mithril-stm library under two arrival orders, by SignerBuilder (the path signer and aggregator nodes use) on the JSON round-tripped signer list, and by the client's MessageBuilder on the JSON round-tripped stake-distribution message; the key itself goes through json-hex and bytes round trips; one party's node-path signer signs and its slot and signature are checked against the library path; total stake = sum; removing a party, stake +-1 or swapping two unequal stakes must change the key; rejected re-registration attempts, a second pool claiming a registered key and one more party whose key is the opposite point of a member's key (secret key r - sk) are part of the arrival histories. A differential between independent computation paths under generated orders is exactly what the statement quantifies over.",
+        note="Key material: the repository's deterministic fixture builder (12 certified signers); apart from opposite points, shared-prefix BLS keys cannot be manufactured. The aggregator/signer services that wrap SignerBuilder are exercised end-to-end by C14/C20, not here.",
         technique="property-based testing: differential between computation paths and registration orders + metamorphic distinctness (proptest)",
         design_ref="DESIGN.md §2 C06",
         engine="p-stm",
@@ -91,7 +91,7 @@ CLAIMED = {
     ),
     "C03": dict(
         category="exploration",
-        text="Per-run pool of 400 honest chains (1-6 epochs, 1-3 certificates per epoch, constant or rotating per-epoch signer worlds with real STM keys, own genesis key) served by an untrusted provider that applies 0-3 generated tamper operations and owns an adversary signer world and genesis key: any field altered with/without re-hash and with/without re-synchronised signed message, certificates re-signed by the adversary / by another epoch's honest world / under the honest parameters, whole forks re-signed consistently (with the honest parent served under an altered commitment, a fake epoch boundary, re-hashed or not), links re-targeted (same / previous / next / older epoch, genesis), drop, duplicate, serve-for-wrong-hash, serve-ancestor-for-parent, self-loop, genesis under another key, standard-as-genesis and genesis-as-standard. 8000 single verifications (mithril_common verify_certificate_chain and the client's verify_chain without cache) and 3000 client histories of 2-4 verify_chain calls sharing one real verifier cache while the provider changes its answers in between. Oracle: a literal transcription of the statement (bounded walk over everything the provider ever served; hash, signed message, epoch part, multi-signature under own key and parameters, the two link rules, genesis under the configured key via dalek directly); violation = accepted and the reference finds a failing clause. Found three genuine defects (repaired); 12 of 13 mutants caught, the 13th is equivalent on the repaired tree.",
+        text="Per-run pool of 400 honest chains (1-6 epochs, 1-3 certificates per epoch, constant or rotating per-epoch signer worlds with real STM keys, own genesis key) served by an untrusted provider that applies 0-3 generated tamper operations and owns an adversary signer world and genesis key: any field altered with/without re-hash and with/without re-synchronised signed message, certificates re-signed by the adversary / by another epoch's honest world / under the honest parameters / by the honest signers under laxer parameters of the provider's choice (phi_f = 1, with the parent's unsigned metadata rewritten to match), whole forks re-signed consistently (with the honest parent served under an altered commitment, a fake epoch boundary, re-hashed or not), links re-targeted (same / previous / next / older epoch, genesis), drop, duplicate, serve-for-wrong-hash, serve-ancestor-for-parent, self-loop, genesis under another key, standard-as-genesis and genesis-as-standard. 8000 single verifications (mithril_common verify_certificate_chain and the client's verify_chain without cache) and 3000 client histories of 2-4 verify_chain calls sharing one real verifier cache while the provider changes its answers in between. Oracle: a literal transcription of the statement (bounded walk over everything the provider ever served; hash, signed message, epoch part, multi-signature under own key and parameters, the two link rules, genesis under the configured key via dalek directly); violation = accepted and the reference finds a failing clause. Found three genuine defects (repaired); 12 of 13 mutants caught, the 13th is equivalent on the repaired tree.",
         note="Trusted: SHA-256 / certificate hash (C04), STM aggregate verification (C01), Ed25519 verify_strict, key codecs (C05). Structural adversary with its own keys; cannot sign with honest keys. Provider and cache calls are budgeted so that a looping verifier ends as 'not accepted' (a hang would be exit 2).",
         technique="property-based testing: tamper grammar over honest chains served by an adversarial provider + reference chain validator; stateful cache histories (proptest)",
         design_ref="DESIGN.md §2 C03",
@@ -155,7 +155,7 @@ CLAIMED = {
     ),
     "C19": dict(
         category="exploration",
-        text="About 4000 real download_unpack calls per quick run (real ClientBuilder client, real HttpFileDownloader with the tar/zstd/gzip unpacker wrapped in the default retry stack, real AncillaryVerifier with a harness ed25519 key) against harness mirrors behind file:// locations (about 6% over a loopback HTTP server for the streaming branch). Archives come from a raw tar writer: 22 kinds of immutable-archive extras (ledger/, volatile/, top level, nested, marker shadowing, numbers outside range / beyond beacon, absolute and .. paths, symlinks, hardlinks, GNU long names, unusual entry names: not valid UTF-8, hidden, blanks, backslash, other letter case, control and multi-byte characters; truncated tar, cut compressed stream), 10 ancillary extras, 14 manifest alterations (among them a listed path respelled: separator, letter case, trailing blank, served under that spelling with the genuine signature); faults: missing location, corrupt/truncated archive, blocked final move, second mirrors, and a FIFO-synchronised abort while the ancillary download is provably in flight. Oracle: an independent containment rule on the resulting directory tree from harness bookkeeping (new files must be requested-range trio names, markers with the exact content after Ok, or (path, sha256) pairs of the one manifest the harness signed; nothing of the ancillary archive after a failed verification; user files and the sentinel parent untouched; honest downloads deliver exactly the expected files). Ten mutants caught; five finding classes are open known findings.",
+        text="About 4000 real download_unpack calls per quick run (real ClientBuilder client, real HttpFileDownloader with the tar/zstd/gzip unpacker wrapped in the default retry stack, real AncillaryVerifier with a harness ed25519 key) against harness mirrors behind file:// locations (about 6% over a loopback HTTP server for the streaming branch). Archives come from a raw tar writer: 22 kinds of immutable-archive extras (ledger/, volatile/, top level, nested, marker shadowing, numbers outside range / beyond beacon, absolute and .. paths, symlinks, hardlinks, GNU long names, unusual entry names: not valid UTF-8, hidden, blanks, backslash, other letter case, control and multi-byte characters; truncated tar, cut compressed stream), 10 ancillary extras, 14 manifest alterations (among them a listed path respelled: separator, letter case, trailing blank, served under that spelling with the genuine signature; the last byte of a listed file changed); listed files are tens of bytes long, sometimes just over 64 KiB or 2 MiB (the read-buffer sizes of the hashing code); faults: missing location, corrupt/truncated archive, blocked final move, second mirrors, and a FIFO-synchronised abort while the ancillary download is provably in flight. Oracle: an independent containment rule on the resulting directory tree from harness bookkeeping (new files must be requested-range trio names, markers with the exact content after Ok, or (path, sha256) pairs of the one manifest the harness signed; nothing of the ancillary archive after a failed verification; user files and the sentinel parent untouched; honest downloads deliver exactly the expected files). Ten mutants caught; five finding classes are open known findings.",
         note="Trusted base: the harness signer stands for the ancillary key holder; the snapshot message shape is honest; tar/zstd/flate2 crates as shipped. Interleavings of parallel downloads are sampled only through the sequential order plus one synchronised abort schedule. Empty directories are ignored.",
         technique="property-based testing with fault injection: generated hostile tar/zstd/gzip mirrors, directory-tree containment oracle, signed-manifest bookkeeping, FIFO-synchronised abort injection (proptest)",
         design_ref="DESIGN.md §2 C19",
